@@ -430,6 +430,19 @@ def _analyse(ctx, fr):
                 ctx.touch(sc)
 
 
+def o7(ctx):
+    """The custom_root wiring obligation alone (shared with C10, which reports it under its own rule prefix)."""
+    ctx.need_module(SR)
+    fr = ctx.need(f"{SR}:find_root")
+    try:
+        M = RootModel(ctx, SR)
+        An = _Analysis(ctx, M)
+        base_run = An.solver_run("base", dict(BASE))
+        wiring(ctx, M, fr, base_run)
+    except EVAL_ERRORS as ex:
+        raise Incomplete(f"find_root cannot be interpreted: {type(ex).__name__}: {ex}")
+
+
 def _report_scope(ctx, run, fr):
     """Obligations are reported at the function that owns the iteration (the one find_root's solver ends up in); every repo function
     the interpretation went through counts as analysed (the thorough tier alpha-renames each of them)."""
